@@ -15,7 +15,7 @@ import numpy as np
 import z3
 
 
-class NeedConcrete(Exception):
+class NeedConcrete(BaseException):
     """the encoder met a construct it cannot represent symbolically (harness error, never a verdict)"""
 
 
@@ -140,37 +140,37 @@ class SV:
         return isinstance(o, np.ndarray)
 
     def __add__(self, o):
-        return NotImplemented if isinstance(o, np.ndarray) or getattr(o, '_is_matrix', False) else arith('+', self, o)
+        return NotImplemented if not _is_num(o) else arith('+', self, o)
 
     def __radd__(self, o):
         return arith('+', o, self)
 
     def __sub__(self, o):
-        return NotImplemented if isinstance(o, np.ndarray) or getattr(o, '_is_matrix', False) else arith('-', self, o)
+        return NotImplemented if not _is_num(o) else arith('-', self, o)
 
     def __rsub__(self, o):
         return arith('-', o, self)
 
     def __mul__(self, o):
-        return NotImplemented if isinstance(o, np.ndarray) or getattr(o, '_is_matrix', False) else arith('*', self, o)
+        return NotImplemented if not _is_num(o) else arith('*', self, o)
 
     def __rmul__(self, o):
         return arith('*', o, self)
 
     def __mod__(self, o):
-        return NotImplemented if isinstance(o, np.ndarray) or getattr(o, '_is_matrix', False) else arith('%', self, o)
+        return NotImplemented if not _is_num(o) else arith('%', self, o)
 
     def __floordiv__(self, o):
-        return NotImplemented if isinstance(o, np.ndarray) or getattr(o, '_is_matrix', False) else arith('//', self, o)
+        return NotImplemented if not _is_num(o) else arith('//', self, o)
 
     def __truediv__(self, o):
-        return NotImplemented if isinstance(o, np.ndarray) or getattr(o, '_is_matrix', False) else arith('/', self, o)
+        return NotImplemented if not _is_num(o) else arith('/', self, o)
 
     def __rtruediv__(self, o):
         return arith('/', o, self)
 
     def __pow__(self, o):
-        return NotImplemented if isinstance(o, np.ndarray) or getattr(o, '_is_matrix', False) else arith('**', self, o)
+        return NotImplemented if not _is_num(o) else arith('**', self, o)
 
     def __rpow__(self, o):
         return arith('**', o, self)
@@ -185,22 +185,22 @@ class SV:
         return ite(compare('<', self, 0), arith('-', 0, self), self)
 
     def __eq__(self, o):
-        return NotImplemented if isinstance(o, np.ndarray) or getattr(o, '_is_matrix', False) else compare('==', self, o)
+        return NotImplemented if not _is_num(o) else compare('==', self, o)
 
     def __ne__(self, o):
-        return NotImplemented if isinstance(o, np.ndarray) or getattr(o, '_is_matrix', False) else compare('!=', self, o)
+        return NotImplemented if not _is_num(o) else compare('!=', self, o)
 
     def __lt__(self, o):
-        return NotImplemented if isinstance(o, np.ndarray) or getattr(o, '_is_matrix', False) else compare('<', self, o)
+        return NotImplemented if not _is_num(o) else compare('<', self, o)
 
     def __le__(self, o):
-        return NotImplemented if isinstance(o, np.ndarray) or getattr(o, '_is_matrix', False) else compare('<=', self, o)
+        return NotImplemented if not _is_num(o) else compare('<=', self, o)
 
     def __gt__(self, o):
-        return NotImplemented if isinstance(o, np.ndarray) or getattr(o, '_is_matrix', False) else compare('>', self, o)
+        return NotImplemented if not _is_num(o) else compare('>', self, o)
 
     def __ge__(self, o):
-        return NotImplemented if isinstance(o, np.ndarray) or getattr(o, '_is_matrix', False) else compare('>=', self, o)
+        return NotImplemented if not _is_num(o) else compare('>=', self, o)
 
     def __invert__(self):
         if self.kind == 'b':
@@ -261,6 +261,10 @@ def _no_hook(x):
 _HOOKS = {'bool': _no_hook, 'index': _no_hook}
 
 
+def _is_num(o):
+    return isinstance(o, (int, float, complex, bool, np.number, np.bool_, fractions.Fraction, SV, SDyad, SC))
+
+
 def is_sym(x):
     return isinstance(x, SV)
 
@@ -277,6 +281,8 @@ def to_int(x):
     if isinstance(x, (int, np.integer)):
         return int(x)
     if isinstance(x, (float, np.floating)) and float(x).is_integer():
+        return int(x)
+    if isinstance(x, fractions.Fraction) and x.denominator == 1:
         return int(x)
     raise NeedConcrete('to_int %r' % (x,))
 
@@ -335,6 +341,12 @@ def arith(op, a, b):
             return SV.mk(z3.If(a.e == 1, bv(b, w), z3.BitVecVal(0, w)), min(0, lo), max(0, hi))
         if is_sym(b) and (bl, bh) == (0, 1):
             return SV.mk(z3.If(b.e == 1, bv(a, w), z3.BitVecVal(0, w)), min(0, lo), max(0, hi))
+        if is_sym(a) and al >= -1 and ah <= 1:   # product with a unit -1/0/+1 is a three-way ite
+            x, y = bv(a, w), bv(b, w)
+            return SV.mk(z3.If(x == 1, y, z3.If(x == -1, -y, z3.BitVecVal(0, w))), min(lo, 0), max(hi, 0))
+        if is_sym(b) and bl >= -1 and bh <= 1:
+            x, y = bv(b, w), bv(a, w)
+            return SV.mk(z3.If(x == 1, y, z3.If(x == -1, -y, z3.BitVecVal(0, w))), min(lo, 0), max(hi, 0))
         return SV.mk(bv(a, w) * bv(b, w), lo, hi)
     if op in ('%', '//'):
         if is_sym(b):
@@ -689,13 +701,13 @@ class SDyad:
     def __repr__(self):
         return 'SDyad(%r * 2**-%d)' % (self.m, self.k)
 
-    def __add__(self, o): return NotImplemented if (isinstance(o, np.ndarray) or getattr(o, '_is_matrix', False)) else arith('+', self, o)
+    def __add__(self, o): return NotImplemented if not _is_num(o) else arith('+', self, o)
     def __radd__(self, o): return arith('+', o, self)
-    def __sub__(self, o): return NotImplemented if (isinstance(o, np.ndarray) or getattr(o, '_is_matrix', False)) else arith('-', self, o)
+    def __sub__(self, o): return NotImplemented if not _is_num(o) else arith('-', self, o)
     def __rsub__(self, o): return arith('-', o, self)
-    def __mul__(self, o): return NotImplemented if (isinstance(o, np.ndarray) or getattr(o, '_is_matrix', False)) else arith('*', self, o)
+    def __mul__(self, o): return NotImplemented if not _is_num(o) else arith('*', self, o)
     def __rmul__(self, o): return arith('*', o, self)
-    def __truediv__(self, o): return NotImplemented if (isinstance(o, np.ndarray) or getattr(o, '_is_matrix', False)) else arith('/', self, o)
+    def __truediv__(self, o): return NotImplemented if not _is_num(o) else arith('/', self, o)
     def __rtruediv__(self, o): return arith('/', o, self)
     def __neg__(self): return arith('-', 0, self)
     def __eq__(self, o): return compare('==', self, o)
@@ -844,13 +856,13 @@ class SC:
     def __repr__(self):
         return 'SC(%r,%r)' % (self.re, self.im)
 
-    def __add__(self, o): return NotImplemented if (isinstance(o, np.ndarray) or getattr(o, '_is_matrix', False)) else arith('+', self, o)
+    def __add__(self, o): return NotImplemented if not _is_num(o) else arith('+', self, o)
     def __radd__(self, o): return arith('+', o, self)
-    def __sub__(self, o): return NotImplemented if (isinstance(o, np.ndarray) or getattr(o, '_is_matrix', False)) else arith('-', self, o)
+    def __sub__(self, o): return NotImplemented if not _is_num(o) else arith('-', self, o)
     def __rsub__(self, o): return arith('-', o, self)
-    def __mul__(self, o): return NotImplemented if (isinstance(o, np.ndarray) or getattr(o, '_is_matrix', False)) else arith('*', self, o)
+    def __mul__(self, o): return NotImplemented if not _is_num(o) else arith('*', self, o)
     def __rmul__(self, o): return arith('*', o, self)
-    def __truediv__(self, o): return NotImplemented if (isinstance(o, np.ndarray) or getattr(o, '_is_matrix', False)) else arith('/', self, o)
+    def __truediv__(self, o): return NotImplemented if not _is_num(o) else arith('/', self, o)
     def __rtruediv__(self, o): return arith('/', o, self)
     def __neg__(self): return arith('-', 0, self)
     def __eq__(self, o): return NotImplemented if isinstance(o, np.ndarray) else compare('==', self, o)
